@@ -34,7 +34,8 @@ EXPLANATION = (
     'kind of unknown material reaches a ValidationError. Decides the structural part named in '
     'DESIGN 4/C07, not the two-spec behaviour.'
     ' R7: introducing or inlining an alias is compatible only if an aliased reference keeps its Nullable wrap and bounds: generate_validator_constructor wraps Nullable on every return path (shared with C08-R3).'
-    ' R8 (imported from C02-R6): lenient decoding of an unknown tag needs the catch-all the frontend adds to every open union.')
+    ' R8 (imported from C02-R6): lenient decoding of an unknown tag needs the catch-all the frontend adds to every open union.'
+    ' RD (decision drift, stonelint.conddrift): the tests of the functions this property is anchored in (stonelint.ownership) are compared with reference/conditions.json; a relation, polarity or connective changed over the same operands, or an operand purely added or dropped, is a violation; re-spellings and new or removed tests are not claimed.')
 ASSUMPTIONS = [
     'CPython ast of the current working tree is the program',
     'structured control flow only (no exceptions used for control inside the analysed functions '
@@ -421,3 +422,7 @@ def run(pm, ctx):
               'definition (subclasses pass)', vto.loc,
               msg='bv.Struct.validate_type_only no longer tests isinstance(val, self.definition) '
                   'only', key='C07-R9|%s' % vto.qualname)
+
+    from ..conddrift import run_decisions
+    from ..ownership import OWN
+    run_decisions(pm, ctx, 'C07-RD', OWN['C07'])
